@@ -684,6 +684,8 @@ class ClientProgram:
         self.done = False
         self.crash = None
         self.helpers = []
+        self.iters = {}
+        self.iter_stats = dict(suspended=0, resumed=0, completed=0, names_ok=0, names_bad=0)
         self.abandoned = 0
         self.release_when = None  # optional predicate the controller waits for (<= 2 s) before releasing replies
         self.t = threading.Thread(target=self.run, daemon=True, name="vf-c30-worker")
@@ -725,6 +727,37 @@ class ClientProgram:
             c.listdir(st[1])
         elif k == "listdir_iter":
             list(c.listdir_iter(st[1], read_aheads=st[2]))
+        elif k == "iter_start":
+            # the application starts a listing and stops consuming it after k entries: the generator is suspended with
+            # its READDIR read-aheads in flight
+            g = c.listdir_iter(st[2], read_aheads=st[3])
+            got = []
+            try:
+                for _ in range(st[4]):
+                    got.append(next(g).filename)
+                self.iters[st[1]] = (g, st[2], got)
+                self.iter_stats["suspended"] += 1
+            except StopIteration:
+                self.iters[st[1]] = (None, st[2], got)
+        elif k == "iter_resume":
+            g, path, got = self.iters.get(st[1], (None, None, None))
+            if g is not None:
+                self.iter_stats["resumed"] += 1
+                n = st[2]
+                try:
+                    while n is None or n > 0:
+                        got.append(next(g).filename)
+                        if n is not None:
+                            n -= 1
+                except StopIteration:
+                    self.iters[st[1]] = (None, path, got)
+                    self.iter_stats["completed"] += 1
+                    want = sorted(os.listdir(os.path.join(self.root, path.lstrip("/"))))
+                    self.iter_stats["names_ok" if sorted(got) == want else "names_bad"] += 1
+        elif k == "iter_drop":
+            g, path, got = self.iters.pop(st[1], (None, None, None))
+            if g is not None:
+                g.close()
         elif k == "abandon":
             # the application drops the file object without close(): outstanding prefetch / readv / pipelined-write
             # requests lose their (weak) _expecting entries, their responses still arrive
@@ -794,6 +827,11 @@ class ClientProgram:
                 F[st[1]].prefetch(max_concurrent_requests=st[2])
             else:
                 F[st[1]].prefetch()
+        elif k == "prefetch_nosync":
+            # prefetch with the size given by the application: no synchronous stat() in between
+            f = F[st[1]]
+            f.prefetch(file_size=os.path.getsize(os.path.join(self.root, "r1")), max_concurrent_requests=st[2])
+            del f
         elif k == "read":
             F[st[1]].read(st[2])
         elif k == "seek":
@@ -960,6 +998,69 @@ def followups(rng, n):
     return out
 
 
+def iter_suspend_program(rng):
+    """A listdir_iter() generator is suspended after k entries (read-aheads in flight / already answered), the session
+    is used for other things - prefetching reads, readv, pipelined writes, stat, transfers, in this or another
+    application thread - and then the listing is resumed (possibly in pieces, possibly from another thread)."""
+    steps = []
+    if rng.random() < 0.3:
+        steps.append(("hold",))
+    if rng.random() < 0.4:
+        steps += [("open_w", "w0", True, "w"), ("write", "w0", rng.choice([1, 100, 1000]), rng.choice([1, 10, 60, 120]))]
+    # a file opened (and possibly already prefetching with few slots) BEFORE the listing starts: its later reads go
+    # through the single-check reader with no synchronous request in between that would collect the READDIR answers
+    pre = rng.choice(["none", "opened", "prefetching-limited", "prefetching-limited"])
+    if pre != "none":
+        steps.append(("open_r", "p0", "/r1"))
+        if pre == "prefetching-limited":
+            steps.append(("prefetch", "p0", rng.choice([1, 2])))
+    path = rng.choice(["/", "/", "/d"])
+    steps.append(("iter_start", "it", path, rng.choice([2, 5, 50, 50]), rng.choice([1, 1, 2, 5, 17])))
+    def middle(i):
+        r = rng.random()
+        key = "m%d" % i
+        if pre != "none" and r < 0.5:
+            m = []
+            if pre == "opened" and not any(x[0] == "prefetch_nosync" for x in steps):
+                m.append(("prefetch_nosync", "p0", rng.choice([None, 1, 3])))
+            m.append(rng.choice([("read", "p0", rng.choice([100, 40000, 70000, 500000])),
+                                 ("readv", "p0", [(rng.randint(0, 90000), rng.randint(1, 40000))
+                                                  for _ in range(rng.randint(1, 4))])]))
+            return m
+        if r < 0.35:
+            m = [("open_r", key, rng.choice(["/r0", "/r1"])), ("prefetch", key, rng.choice([None, None, 1, 4])),
+                 ("read", key, rng.choice([1, 100, 40000, 500000]))]
+            if rng.random() < 0.5:
+                m.append(("close", key))
+            return m
+        if r < 0.5:
+            return [("open_r", key, "/r1"), ("readv", key, [(rng.randint(0, 90000), rng.randint(1, 40000))
+                                                           for _ in range(rng.randint(1, 4))]), ("close", key)]
+        if r < 0.6 and any(x[0] == "open_w" for x in steps):
+            return [("write", "w0", rng.choice([1, 100]), rng.choice([1, 50, 120]))]
+        if r < 0.75:
+            return [(rng.choice(["stat", "lstat", "normalize"]), rng.choice(["/r0", "/", "/missing"]))]
+        if r < 0.85:
+            return [("getfo", rng.choice(["/r0", "/r1"]), True)]
+        if r < 0.93:
+            return [("in_thread", ("getfo", "/r1", True))]
+        return [("putfo", "q" + key, rng.choice([10, 40000]), rng.random() < 0.5)]
+    for i in range(rng.randint(1, 3)):
+        steps += middle(i)
+    if rng.random() < 0.4:
+        steps.append(("iter_resume", "it", rng.choice([1, 3, 16])))
+        steps += middle(7)
+    last = ("iter_resume", "it", None)
+    steps.append(("in_thread", last) if rng.random() < 0.3 else last)
+    if rng.random() < 0.15:
+        steps[-1] = ("iter_drop", "it")
+    steps.append(("stat", "/r0"))
+    for x in list(steps):
+        if x[0] in ("open_r", "open_w") and ("close", x[1]) not in steps:
+            steps.append(("close", x[1]))
+    return dict(family="iter-suspend"), steps
+
+
 def last_ref_program(rng):
     """Abandoned prefetching file whose last reference ends up inside SFTPClient._read_response: the prefetch thread
     (which keeps the file alive) can send its final request and exit only when a reader retires a slot, and that
@@ -1042,13 +1143,15 @@ def _watch_unexpected(bench):
 def client_case(ctx, idx):
     rng = ctx.rng
     r = rng.random()
-    fam = "steal" if r < 0.15 else "iter" if r < 0.25 else "abandon" if r < 0.47 else "lastref" if r < 0.5 else "random"
+    fam = "steal" if r < 0.12 else "iter" if r < 0.2 else "itersusp" if r < 0.38 else "abandon" if r < 0.57 else \
+        "lastref" if r < 0.6 else "random"
     desc, steps = steal_program(rng) if fam == "steal" else iter_program(rng) if fam == "iter" else \
-        abandon_program(rng) if fam == "abandon" else last_ref_program(rng) if fam == "lastref" else random_program(rng)
+        iter_suspend_program(rng) if fam == "itersusp" else abandon_program(rng) if fam == "abandon" else \
+        last_ref_program(rng) if fam == "lastref" else random_program(rng)
     policy = rng.choice(["all", "all", "one", "some"])
     desc["release_policy"] = policy
     has_pipe = any(s[0] == "open_w" and s[2] for s in steps) or any(
-        s[0] in ("prefetch", "readv", "readv_partial", "putfo", "getfo", "iter_interleave", "listdir_iter")
+        s[0] in ("prefetch", "readv", "readv_partial", "putfo", "getfo", "iter_interleave", "listdir_iter", "iter_start")
         for s in steps)
     ctx.case((fam, tuple(map(repr, steps)), policy),
              sample=dict(desc, program=[list(s) for s in steps][:14]) if idx % 23 == 1 else None, nontrivial=has_pipe)
@@ -1101,6 +1204,12 @@ def client_case(ctx, idx):
         ctx.count("client_pipelined_write_requests", sum(1 for p in reqs if p["type"] == CMD["WRITE"]))
         ctx.count("client_steps_executed", len(prog.log))
         ctx.count("client_programs_family_" + desc["family"])
+        if prog.iter_stats["suspended"]:
+            ctx.count("listings_suspended_with_readaheads", prog.iter_stats["suspended"])
+            ctx.count("listings_resumed", prog.iter_stats["resumed"])
+            ctx.count("listings_completed_after_suspension", prog.iter_stats["completed"])
+            ctx.count("listings_complete_and_correct", prog.iter_stats["names_ok"])
+            ctx.count("listings_completed_with_wrong_names_not_judged", prog.iter_stats["names_bad"])
         if prog.abandoned:
             ctx.count("client_files_abandoned_without_close", prog.abandoned)
             ctx.count("client_requests_outstanding_at_abandon", getattr(prog, "abandoned_outstanding", 0))
@@ -1371,6 +1480,8 @@ def run(ctx):
     ctx.require("client_files_abandoned_without_close", ctx.pick(30, 400))
     ctx.require("client_unexpected_responses_seen", ctx.pick(40, 400))
     ctx.require("client_programs_family_abandon-last-ref", ctx.pick(2, 40))
+    ctx.require("listings_suspended_with_readaheads", ctx.pick(12, 150))
+    ctx.require("listings_completed_after_suspension", ctx.pick(10, 120))
     ctx.require("perturbed_async_sends_answered_before_send_returned", ctx.pick(50, 800))
     ctx.require("client_pipelined_write_requests", ctx.pick(10000, 200000))
     ctx.require("gate_releases", ctx.pick(500, 10000))
